@@ -19,7 +19,7 @@
 (*   rf    s.refund      lg / ls   s.logs (per tx hash) / s.logSize        *)
 (*   sv    ghost: the observable world saved at each valid revision        *)
 (* An object is [n nonce, c credits, b balance, t token balances, k code,  *)
-(* s storage (dirty over origin over trie, merged), x suicided, d deleted]. *)
+(* s storage (dirty over origin over trie, merged), x suicided, d deleted] *)
 (*                                                                         *)
 (* One action per public call.  The code's own algorithm is kept: every    *)
 (* mutator goes through GetOrNewStateObject (Ensure), appends the undo     *)
